@@ -579,6 +579,23 @@ fn load_toplevel_items_(
                 .borrow_mut()
                 .values
                 .insert(variant_sym.name_sym.name.clone(), enum_value);
+
+            // The variants of a public enum are what an importing
+            // file uses to build and match its values.
+            match enum_info.visibility {
+                Visibility::Public(_) => {
+                    namespace
+                        .borrow_mut()
+                        .exported_syms
+                        .insert(variant_sym.name_sym.name.clone());
+                }
+                Visibility::CurrentFile => {
+                    namespace
+                        .borrow_mut()
+                        .exported_syms
+                        .remove(&variant_sym.name_sym.name);
+                }
+            }
         }
     }
 
